@@ -27,7 +27,7 @@ import inspect
 import sys
 from unittest import mock
 
-from .decorators import asynq
+from .decorators import AsyncAndSyncPairDecorator, asynq
 from .futures import ConstFuture
 
 _patch = mock._patch
@@ -210,7 +210,12 @@ class _AsynqWrapper(object):
         object.__setattr__(self, "_mock_fn", mock_fn)
 
     def __call__(self, *args, **kwargs):
-        return ConstFuture(self._mock_fn(*args, **kwargs))
+        mock_fn = self._mock_fn
+        if isinstance(mock_fn, AsyncAndSyncPairDecorator):
+            # a plain function given as replacement (wrapped by _maybe_wrap_new): call it directly,
+            # the wrapper's own synchronous call is refused when the yielding task runs in asyncio mode
+            mock_fn = mock_fn.sync_fn
+        return ConstFuture(mock_fn(*args, **kwargs))
 
     def __setattr__(self, attr, value):
         raise TypeError(
